@@ -2,6 +2,7 @@ package props
 
 import (
 	"fmt"
+	"go/token"
 	"os"
 	"sort"
 	"strings"
@@ -183,7 +184,17 @@ func boundsRun(c *Ctx, entries []*ssa.Function, hooks *bounds.Hooks) int {
 		}
 		fname := core.FuncName(o.Fn)
 		if o.Kind == "WRAP" && !c.wrapScope[fname] {
-			continue // wrap-around is only a finding where the property's decoders must not wrap
+			if os.Getenv("RTPCHECK_WRAPSHIFTS") == "" {
+				continue // wrap-around is only a finding where the property's decoders must not wrap
+			}
+			if bo, ok := o.Instr.(*ssa.BinOp); !ok || bo.Op != token.SHL { // experiment: shifts everywhere
+				continue
+			}
+		}
+		if o.Kind == "WRAP" && c.wrapShiftOnly[fname] {
+			if bo, ok := o.Instr.(*ssa.BinOp); !ok || bo.Op != token.SHL {
+				continue // counters (donl++) wrap by design; only shifts that push header bits out are findings here
+			}
 		}
 		if c.collectOnly {
 			// first (high-precision) pass of the thorough tier: remember what it discharged
